@@ -204,20 +204,31 @@ def escapeStr (raw : Char → Bool) : Str → Str
 /-- The string token as printed: quote, escaped body, quote. -/
 def printStr (raw : Char → Bool) (s : Str) : Str := '"' :: (escapeStr raw s ++ ['"'])
 
+/-- Where an error is: the suffix of the source at which the offending piece starts, and the
+suffix after it (the byte range of the real `Str` is `len src - len from .. len src - len to`
+in UTF-8 bytes; `lex_error_located`: both are suffixes of the source, `to` a suffix of `from`). -/
+abbrev Span := List Char × List Char
+
 /-- The lexer's error classes (`lang::Error` variants recorded by lexer.rs), plus two that
 never leave the model's lexer: `unterminatedString` (end of text inside a string: the real
 lexer silently stops producing tokens, `lexAux` turns it into the end of the token list) and
 `parse` (used by `parseText` for an error of the parser or of `Args::build`). -/
 inductive LexErr where
-  | invalidCharacter
-  | unknownEscapeSequence
-  | numberOutOfRange
-  | multipleDecimalPoints
-  | numberWithoutUnits
-  | invalidDimensionUnit
+  | invalidCharacter (sp : Span)
+  | unknownEscapeSequence (sp : Span)
+  | numberOutOfRange (sp : Span)
+  | multipleDecimalPoints (sp : Span)
+  | numberWithoutUnits (sp : Span)
+  | invalidDimensionUnit (sp : Span)
   | unterminatedString
   | parse
 deriving DecidableEq, Repr
+
+/-- The label span of an error (`Error::labels` has exactly one label for each lexer error). -/
+def LexErr.span : LexErr → Option Span
+  | .invalidCharacter sp | .unknownEscapeSequence sp | .numberOutOfRange sp
+  | .multipleDecimalPoints sp | .numberWithoutUnits sp | .invalidDimensionUnit sp => some sp
+  | .unterminatedString | .parse => none
 
 /-- Results of the text level: `err e` = the real lexer records error `e` (before fix C18-a
 some of these were panics); `unsupported` = the fuel of `lexAux` ran out (`lex_total`: it never
@@ -233,11 +244,11 @@ def Res.map {α β} (f : α → β) : Res α → Res β
 
 inductive SState where
   | norm
-  /-- after a backslash -/
-  | esc
+  /-- after a backslash; `bs` = the text from the backslash on -/
+  | esc (bs : List Char)
   /-- after `\u` -/
-  | afterU
-  | hex (v : Nat) (valid : Bool)
+  | afterU (bs : List Char)
+  | hex (bs : List Char) (v : Nat) (valid : Bool)
 
 def Res.push {α} (c : Char) : Res (Str × α) → Res (Str × α)
   | .ok p => .ok (c :: p.1, p.2) | .err e => .err e | .unsupported => .unsupported
@@ -247,33 +258,34 @@ step. Reaching the end of the text inside a string is `err unterminatedString` (
 silently stops producing tokens; see `lexStep`). -/
 def scanStr : SState → List Char → Res (Str × List Char)
   | .norm, [] => .err .unterminatedString
-  | .esc, [] => .err .unterminatedString
+  | .esc _, [] => .err .unterminatedString
   -- the text ends inside a `\u` escape: the escape is reported, then the string is unterminated
-  | .afterU, [] => .err .unknownEscapeSequence
-  | .hex _ _, [] => .err .unknownEscapeSequence
+  | .afterU bs, [] => .err (.unknownEscapeSequence (bs, []))
+  | .hex bs _ _, [] => .err (.unknownEscapeSequence (bs, []))
   | .norm, c :: r =>
     if c = '"' then .ok ([], r)
-    else if c = '\\' then scanStr .esc r
+    else if c = '\\' then scanStr (.esc (c :: r)) r
     else (scanStr .norm r).push c
-  | .esc, n :: r =>
+  | .esc bs, n :: r =>
     if n = '"' ∨ n = '\'' ∨ n = '\\' then (scanStr .norm r).push n
     else if n = 'n' then (scanStr .norm r).push '\n'
     else if n = 't' then (scanStr .norm r).push '\t'
     else if n = '0' then (scanStr .norm r).push '\x00'
     else if n = 'r' then (scanStr .norm r).push '\r'
-    else if n = 'u' then scanStr .afterU r
-    else .err .unknownEscapeSequence
-  | .afterU, c :: r =>
-    if c = '{' then scanStr (.hex 0 true) r
-    else .err .unknownEscapeSequence     -- malformed `\u` escape (an error since fix C18-a)
-  | .hex v valid, c :: r =>
+    else if n = 'u' then scanStr (.afterU bs) r
+    else .err (.unknownEscapeSequence (bs, r))
+  | .afterU bs, c :: r =>
+    if c = '{' then scanStr (.hex bs 0 true) r
+    -- malformed `\u` escape (an error since fix C18-a); `c` is not part of it
+    else .err (.unknownEscapeSequence (bs, c :: r))
+  | .hex bs v valid, c :: r =>
     if c = '}' then
       if valid ∧ Nat.isValidChar v then (scanStr .norm r).push (Char.ofNat v)
-      else .err .unknownEscapeSequence   -- not a scalar value
+      else .err (.unknownEscapeSequence (bs, r))          -- not a scalar value
     else
       match hexVal c with
-      | some d => scanStr (.hex (v * 16 + d) valid) r
-      | none => .err .unknownEscapeSequence  -- malformed `\u{…` escape
+      | some d => scanStr (.hex bs (v * 16 + d) valid) r
+      | none => .err (.unknownEscapeSequence (bs, c :: r)) -- malformed `\u{…` escape
 
 /-! ## Tokens and the lexer -/
 
@@ -305,46 +317,49 @@ def dropLine : List Char → List Char
   | [] => []
   | c :: r => if c = '\n' then r else dropLine r
 
-/-- The unit branch of `parse_number`: `n` = integer part, `ds` = fraction digits, `r` = the
-text starting at the unit's first letter. With fix C18-a every overflow is an error. -/
-def lexUnit (neg : Bool) (n : Nat) (ds : List Nat) (r : List Char) : Res (BTok × List Char) :=
+/-- The unit branch of `parse_number`: `st` = the text from the start of the number (for the
+error span), `n` = integer part, `ds` = fraction digits, `r` = the text starting at the unit's
+first letter. With fix C18-a every overflow is an error. -/
+def lexUnit (st : List Char) (neg : Bool) (n : Nat) (ds : List Nat) (r : List Char) :
+    Res (BTok × List Char) :=
   let sign : Int := if neg then -1 else 1
   let (u, r') := scanWord r
-  if n > 2147483647 then .err .numberOutOfRange else
+  if n > 2147483647 then .err (.numberOutOfRange (st, r')) else
   let frac := fromDecimalDigits ds
   match unitFraction u with
   | some (num, den, isSp) =>
     match scaledNew n frac num den isSp with
     | some s => .ok (.dim (sign * s), r')
-    | none => .err .numberOutOfRange
+    | none => .err (.numberOutOfRange (st, r'))
   | none =>
     match InfOrder.ofUnit u with
     | some o =>
       let s : Int := (frac : Int) + 65536 * (n : Int)
-      if s > 2147483647 then .err .numberOutOfRange else .ok (.inf (sign * s) o, r')
-    | none => .err .invalidDimensionUnit
+      if s > 2147483647 then .err (.numberOutOfRange (st, r')) else .ok (.inf (sign * s) o, r')
+    | none => .err (.invalidDimensionUnit (r, r'))
 
-def lexInt (neg : Bool) (n : Nat) (r : List Char) : Res (BTok × List Char) :=
-  if n > 2147483647 then .err .numberOutOfRange
+def lexInt (st : List Char) (neg : Bool) (n : Nat) (r : List Char) : Res (BTok × List Char) :=
+  if n > 2147483647 then .err (.numberOutOfRange (st, r))
   else .ok (.int ((if neg then -1 else 1) * (n : Int)), r)
 
-/-- `Lexer::parse_number`, started at the first digit (or after the `-`). The error is the
-first one the real lexer records. -/
-def lexNumber (neg : Bool) (cs : List Char) : Res (BTok × List Char) :=
+/-- `Lexer::parse_number`, started at the first digit (or after the `-`); `st` = the text from
+the start of the number (including the `-`). The error is the first one the real lexer
+records, with its label span. -/
+def lexNumber (st : List Char) (neg : Bool) (cs : List Char) : Res (BTok × List Char) :=
   let (n, r1) := scanDigits 0 cs
   match r1 with
-  | [] => lexInt neg n r1
+  | [] => lexInt st neg n r1
   | c :: r2 =>
     if c = '.' then
       let (ds, r3) := scanFrac r2
       match r3 with
-      | [] => .err .numberWithoutUnits
-      | c' :: _ =>
-        if isAlpha c' then lexUnit neg n ds r3
-        else if c' = '.' then .err .multipleDecimalPoints
-        else .err .numberWithoutUnits
-    else if isAlpha c then lexUnit neg n [] r1
-    else lexInt neg n r1
+      | [] => .err (.numberWithoutUnits ([], []))
+      | c' :: r4 =>
+        if isAlpha c' then lexUnit st neg n ds r3
+        else if c' = '.' then .err (.multipleDecimalPoints (r3, r4))
+        else .err (.numberWithoutUnits (r3, r4))
+    else if isAlpha c then lexUnit st neg n [] r1
+    else lexInt st neg n r1
 
 def Res.cons {α} (a : α) : Res (List α) → Res (List α)
   | .ok l => .ok (a :: l) | .err e => .err e | .unsupported => .unsupported
@@ -374,12 +389,12 @@ def lexStep (c : Char) (r : List Char) : Step :=
   else if c = ',' then .tok .comma r
   else if c = '=' then .tok .eq r
   else if c = '"' then Step.ofRes ((scanStr .norm r).map (fun p => (BTok.str p.1, p.2)))
-  else if c = '-' then Step.ofRes (lexNumber true r)
-  else if (digitVal c).isSome then Step.ofRes (lexNumber false (c :: r))
+  else if c = '-' then Step.ofRes (lexNumber (c :: r) true r)
+  else if (digitVal c).isSome then Step.ofRes (lexNumber (c :: r) false (c :: r))
   else if isAlpha c then
     let (w, r') := scanWord r
     .tok (.kw (c :: w)) r'
-  else .err .invalidCharacter
+  else .err (.invalidCharacter (c :: r, r))
 
 /-- `Lexer::next` iterated (comments dropped: they do not reach the lists). Every step consumes
 at least one character (`lexStep_shorter`), so fuel `length + 1` suffices (`lex_total`). -/
@@ -1110,6 +1125,69 @@ def renderNodes (raw : Char → Bool) (m : Mode) (l : List Node) : List Char :=
 /-- The text of a horizontal list printed element by element (`Display for ds::Horizontal`). -/
 def renderEach (raw : Char → Bool) (l : List Node) : List Char :=
   renderCalls raw 0 (lowerEach l)
+
+/-- UTF-8 length of a text (the real `Str` spans are byte ranges). -/
+def utf8Len : List Char → Nat
+  | [] => 0
+  | c :: r => c.utf8Size + utf8Len r
+
+/-- The byte range of a span in `src`. -/
+def byteRange (src : List Char) (sp : Span) : Nat × Nat :=
+  (utf8Len src - utf8Len sp.1, utf8Len src - utf8Len sp.2)
+
+/-! ## The bracket pre-pass (lexer.rs `Lexer::build`)
+
+The real parser does not find the end of an argument list or of a list by parsing: a pass
+over the whole source matches every opening bracket with a closing one (of either kind)
+counting depth, skipping comments and strings (with `\` escaping the next character), and the
+parser hands the text between the brackets to a sub-lexer. `closeScan st d txt` is that pass
+started after an opening bracket (`d` = brackets opened since): the text up to the matching
+closer, the closer, the text after it. -/
+
+inductive PState where
+  | regular | comment | string | escaped
+deriving DecidableEq, Repr
+
+def consIn (c : Char) : Option (List Char × Char × List Char) → Option (List Char × Char × List Char)
+  | some (ins, cl, aft) => some (c :: ins, cl, aft)
+  | none => none
+
+def closeScan : PState → Nat → List Char → Option (List Char × Char × List Char)
+  | _, _, [] => none
+  | .regular, d, c :: r =>
+    if c = '(' ∨ c = '[' then consIn c (closeScan .regular (d + 1) r)
+    else if c = ')' ∨ c = ']' then
+      match d with
+      | 0 => some ([], c, r)
+      | d' + 1 => consIn c (closeScan .regular d' r)
+    else if c = '#' then consIn c (closeScan .comment d r)
+    else if c = '"' then consIn c (closeScan .string d r)
+    else consIn c (closeScan .regular d r)
+  | .comment, d, c :: r =>
+    if c = '\n' then consIn c (closeScan .regular d r) else consIn c (closeScan .comment d r)
+  | .string, d, c :: r =>
+    if c = '"' then consIn c (closeScan .regular d r)
+    else if c = '\\' then consIn c (closeScan .escaped d r)
+    else consIn c (closeScan .string d r)
+  | .escaped, d, c :: r => consIn c (closeScan .string d r)
+
+/-- For every bracket token of the text, in order: the byte offset of the closing bracket the
+pre-pass matches it with (`TokenValue::RoundOpen/SquareOpen { closing }`), `none` = unmatched. -/
+def bracketCloses (src : List Char) : Nat → List Char → List (Option Nat)
+  | 0, _ => []
+  | _ + 1, [] => []
+  | f + 1, c :: r =>
+    match lexStep c r with
+    | .skip r' => bracketCloses src f r'
+    | .tok t r' =>
+      (if t = .lparen ∨ t = .lbrack then
+        [match closeScan .regular 0 r' with
+         | some (_, _, aft) => some (utf8Len src - utf8Len aft - 1)
+         | none => none]
+       else []) ++ bracketCloses src f r'
+    -- after an error the real lexer goes on; the model stops (compared up to here)
+    | .err _ => []
+    | .stop => []
 
 /-- Text level `lang::format` for a text without comments (the model lexer drops comments,
 the real formatter keeps them): lex, parse to a CST, pretty-print. -/
